@@ -5,7 +5,8 @@ s2 must equal s1 bytewise and the second report must carry no changeset for the 
 """
 from __future__ import annotations
 
-from .. import progcheck
+from .. import core, drive, progcheck, seqspace
+from ..core import Violation
 
 PROP = "C07"
 
@@ -19,9 +20,49 @@ def monitor(p, r):
         yield ("rerun-reports-change", f"second run left the file alone but reported {len(r.cs[1])} changeset(s)")
 
 
+def judge_project(r):
+    """Fixed point at project level: source files, the setup.py that is manifest and source at once, and the other manifests."""
+    k, (r1, r2) = r["codemod"], r["runs"]
+    out = []
+    if r1["exit"] != 0 or r2["exit"] != 0:
+        return [(f"project|{k}|exit", f"exit statuses {r1['exit']}, {r2['exit']}")]
+    diff = sorted(f for f in set(r1["tree"]) | set(r2["tree"]) if r1["tree"].get(f) != r2["tree"].get(f))
+    if diff:
+        out.append((f"project|{k}|rerun-changes-file:{diff[0]}", f"second run of {k} with the same options modified {diff} again"))
+    cs = [c["path"] for res in (r2["results"] or []) for c in res.get("changeset", [])]
+    if cs and not diff:
+        out.append((f"project|{k}|rerun-reports-change:{cs[0]}", f"second run of {k} left the project alone but reported changesets for {cs}"))
+    return out
+
+
+def explore_projects(tier, seed):
+    cms = drive.seed_rotate(seqspace.codemods(tier), seed)
+    res = drive.pmap("cmverif.seqspace:rerun_job", cms)
+    cands, changed = {}, 0
+    for r in res:
+        changed += any(r["runs"][0]["tree"].get(f) != d for f, d in r["files"].items())
+        for sig, detail in judge_project(r):
+            cands.setdefault(sig, (r["codemod"], detail))
+    known_open = {k["signature"] for k in core.load_known() if k["property"] == PROP and k["status"] == "open"}
+    violations = []
+    for sig, (k, detail) in sorted(cands.items()):
+        if sig not in known_open:
+            again = [{s for s, _ in judge_project(seqspace.rerun_job_cli(k))} for _ in range(2)]
+            if not all(sig in a for a in again):
+                continue
+        violations.append(Violation(PROP, sig, detail[:600], {"project": True, "codemod": k, "sig": sig}, 1))
+    return {"codemods": len(cms), "runs": 2 * len(cms), "projects_changed_by_first_run": changed}, violations
+
+
 def explore(tier, seed):
     coverage, violations = progcheck.run_monitor(PROP, tier, seed, monitor, describe="Oracle: K(K(P)) == K(P) bytewise and the second report has no changeset.")
     coverage["histories"] = "every program: P -K-> s1 -K-> s2 (depth 2); fixed points are shared states"
+    pcov, pviol = explore_projects(tier, seed)
+    coverage["project_histories"] = dict(pcov, rule="collision project (sources, a setup.py that is manifest and source, requirements.txt, setup.cfg, an unparseable file) -K-> s1 -K-> s2 for every interacting codemod; s2 == s1 and no changeset in the second report")
+    for key in ("states", "transitions", "traces_validated_against_impl"):
+        if isinstance(coverage.get(key), int):
+            coverage[key] += pcov["runs"]
+    violations = list(violations) + pviol
     assumptions = [
         "SAST codemods are re-run with the unchanged result file, as the property states",
         "batched execution is sound by sibling independence (C11e); every new candidate is re-executed alone through the CLI twice",
@@ -30,4 +71,7 @@ def explore(tier, seed):
 
 
 def replay(rp):
+    if rp.get("project"):
+        found = judge_project(seqspace.rerun_job_cli(rp["codemod"]))
+        return (rp["sig"] not in {s for s, _ in found}), "\n".join(f"{s}: {d}" for s, d in found) or "second run changes nothing"
     return progcheck.replay_program(rp, monitor)
